@@ -525,3 +525,94 @@ func TestFindingC13CloneRealKey(t *testing.T) {
 		t.Fatalf("VERIF-FAIL property=C13 class=clone-nonjson-map-key: Clone of a hand-written model with a map[float64]string column returns %+v for %+v (the JSON fallback cannot encode such keys and its error is ignored)", *c, *m)
 	}
 }
+
+// TestC13Large: the isolation of what the cache hands out does not depend on how many rows
+// a table holds. Tables of 300, 1027, 2051 and 4100 rows (thresholds of any batching or
+// parallel copying are unknown: sizes around powers of two that no small batch size
+// divides) are read in full through Rows, RowsByCondition without conditions and row by
+// row; every returned model is scribbled over (scalar overwritten, set appended to and
+// its first element overwritten); the cache must still hold what was stored.
+func TestC13Large(t *testing.T) {
+	w := c16World(t)
+	for _, n := range []int{300, 1027, 2051, 4100} {
+		tc, err := cache.NewTableCache(w.DBModel, nil, nil)
+		if err != nil {
+			t.Fatal(err)
+		}
+		rc := tc.Table("T0")
+		want := kit.Rows{}
+		for i := 0; i < n; i++ {
+			u := kit.MkUUID(i + 1)
+			r := kit.Row{"marker": kit.Scalar(kit.Str(fmt.Sprintf("m%d", i))), "n": kit.Scalar(kit.Int(int64(i))), "tags": kit.SetOf(kit.Str("a"), kit.Str(fmt.Sprintf("t%d", i)))}
+			want[u] = r
+			if err := rc.Create(u, w.ModelFromRow("T0", u, r), true); err != nil {
+				t.Fatal(err)
+			}
+		}
+		scribble := func(m model.Model) {
+			info, err := w.DBModel.NewModelInfo(m)
+			if err != nil {
+				t.Fatal(err)
+			}
+			if tags, err := info.FieldByColumn("tags"); err == nil {
+				if s, ok := tags.([]string); ok && len(s) > 0 {
+					s[0] = "scribbled"
+					_ = info.SetField("tags", append(s, "appended"))
+				}
+			}
+			_ = info.SetField("marker", "scribbled")
+			_ = info.SetField("n", -1)
+		}
+		paths := []struct {
+			name string
+			read func() []model.Model
+		}{
+			{"Rows", func() []model.Model {
+				var out []model.Model
+				for _, m := range rc.Rows() {
+					out = append(out, m)
+				}
+				return out
+			}},
+			{"RowsByCondition(no conditions)", func() []model.Model {
+				rows, err := rc.RowsByCondition(nil)
+				if err != nil {
+					t.Fatal(err)
+				}
+				var out []model.Model
+				for _, m := range rows {
+					out = append(out, m)
+				}
+				return out
+			}},
+			{"Row by Row", func() []model.Model {
+				var out []model.Model
+				for u := range want {
+					out = append(out, rc.Row(u))
+				}
+				return out
+			}},
+		}
+		for _, p := range paths {
+			models := p.read()
+			if len(models) != n {
+				t.Fatalf("harness: %s returns %d of %d rows", p.name, len(models), n)
+			}
+			for _, m := range models {
+				scribble(m)
+			}
+			got, err := w.RowsFromModels("T0", rc.RowsShallow())
+			if err != nil {
+				t.Fatal(err)
+			}
+			kase := map[string]interface{}{"rows": n, "readPath": p.name}
+			if d := kit.DiffStates(kit.State{"T0": want}, kit.State{"T0": got}); len(d) > 0 {
+				if len(d) > 6 {
+					d = append(d[:6], fmt.Sprintf("... and %d more", len(d)-6))
+				}
+				kit.Fail(t, "C13", "isolation.large-table", kase, "table of %d rows: models returned by %s share memory with the cache: after scribbling over them the cache reads\n%s", n, p.name, strings.Join(d, "\n"))
+			}
+			kit.Record("C13", fmt.Sprintf("large|%d|%s", n, p.name), true, func() interface{} { return kase }, "large-table")
+		}
+	}
+}
